@@ -25,8 +25,25 @@ COQ = os.path.join(ROOT, "coq")
 HARNESS = os.path.join(ROOT, "harness")
 TRANSLATOR = os.path.join(ROOT, "translator")
 OUT = os.path.join(ROOT, "out")
-REPO = "/repo"
+REPO = os.environ.get("VERIF_REPO_ACTIVE", "/repo")
 ENV = dict(os.environ, CARGO_NET_OFFLINE="true")
+
+
+def mirror_and_reexec():
+    """VERIF_REPO=<dir>: run the same check against another checkout (a scratch worktree holding a
+    seeded change) without touching /repo or /verif: mirror /verif to /tmp, point the harness at <dir>."""
+    repo = os.path.abspath(os.environ["VERIF_REPO"])
+    tag = hashlib.md5(repo.encode()).hexdigest()[:8]
+    mirror = "/tmp/verif-mirror-" + tag
+    os.makedirs(mirror, exist_ok=True)
+    subprocess.check_call(["rsync", "-a", "--delete", "--exclude", "/out", "--exclude", "/harness/target", "--exclude", "/evidence",
+                           "--exclude", "/replays", "--exclude", ".lock-*", "--exclude", "/.git", ROOT + "/", mirror + "/"])
+    ct = os.path.join(mirror, "harness/Cargo.toml")
+    txt = open(ct).read().replace('path = "/repo"', 'path = "%s"' % repo)
+    open(ct, "w").write(txt)
+    env = dict(os.environ, VERIF_REPO_ACTIVE=repo)
+    del env["VERIF_REPO"]
+    os.execve(sys.executable, [sys.executable, os.path.join(mirror, "check.py")] + sys.argv[1:], env)
 
 # axioms of Coq's standard library that a theorem may depend on (none is needed so far)
 AXIOM_ALLOWLIST = set()
@@ -335,6 +352,8 @@ def one_round(pid, seed, tier, outdir, replay=None, scale=1):
 
 def main():
     args = sys.argv[1:]
+    if os.environ.get("VERIF_REPO"):
+        mirror_and_reexec()
     if args and args[0] == "--relock":
         relock()
         return 0
